@@ -9,7 +9,7 @@ from . import cells
 
 PALETTE = [1, 6, 8, 13, 14, 22, 26, 29, 47, 55, 79, 82]
 FAMILIES = ["gas", "crystal", "defective", "two_crystals", "crystallite", "molecules", "slab", "vacancy_shell", "primitive", "monolayer", "shared_species_stack",
-            "nanotube", "ribbon", "bilayer", "adsorbed_molecule", "amorphous", "minority_compound"]
+            "nanotube", "ribbon", "bilayer", "adsorbed_molecule", "amorphous", "minority_compound", "minority_defective"]
 
 _CRYSTALS = [
     ("Cu", "fcc", 3.61), ("Al", "fcc", 4.05), ("Fe", "bcc", 2.87), ("W", "bcc", 3.16), ("Si", "diamond", 5.43),
@@ -252,7 +252,14 @@ _COMPOUNDS = [("NaCl", "rocksalt", 5.64), ("MgO", "rocksalt", 4.21), ("CsCl", "c
 _ELEMENTAL = [("Cu", "fcc", 3.61), ("Al", "fcc", 4.05), ("Fe", "bcc", 2.87), ("Ag", "fcc", 4.09), ("Au", "fcc", 4.08), ("W", "bcc", 3.16)]
 
 
-def minority_compound(rng, max_atoms):
+def minority_defective(rng, max_atoms):
+    """minority_compound with 15-35 % of the compound's atoms removed: some of the remaining ones sit on lattice sites
+    of the region without a bonded neighbour (the clean-up stage has to drop them from an index list that is not
+    ascending)."""
+    return minority_compound(rng, max_atoms, vacancies=float(rng.uniform(0.15, 0.35)))
+
+
+def minority_compound(rng, max_atoms, vacancies=0.0):
     """A thin compound slab whose species have very different radii (rocksalt / CsCl / zincblende, 2-3 layers) on a
     much larger elemental crystal, always in shuffled atom order: the compound region is a small cluster that owns
     scattered, high atom indices (its index list is not ascending) and several species."""
@@ -277,6 +284,10 @@ def minority_compound(rng, max_atoms):
     a.set_cell(np.array([cb[0], cb[1], ca[2]]), scale_atoms=True)
     gap = float(rng.uniform(1.8, 2.6))
     b.translate(ca[2] + np.array([0, 0, gap]))
+    if vacancies:
+        keep = rng.random(len(b)) >= vacancies
+        if keep.sum() >= 4:
+            b = b[[int(i) for i in np.nonzero(keep)[0]]]
     if len(a) + len(b) > max_atoms:             # drop atoms of the elemental part, never of the compound
         a = a[:max(1, max_atoms - len(b))]
     s = a + b
@@ -353,7 +364,7 @@ _BUILDERS = {"gas": gas, "crystal": crystal, "defective": defective, "two_crysta
              "crystallite": crystallite, "molecules": molecules, "slab": slab, "vacancy_shell": vacancy_shell,
              "primitive": primitive, "monolayer": monolayer, "shared_species_stack": shared_species_stack,
              "nanotube": nanotube, "ribbon": ribbon, "bilayer": bilayer, "adsorbed_molecule": adsorbed_molecule, "amorphous": amorphous,
-             "minority_compound": minority_compound}
+             "minority_compound": minority_compound, "minority_defective": minority_defective}
 
 
 def random_structure(rng, max_atoms=300, family=None, allow_degenerate=True, allow_invalid=False,
